@@ -235,8 +235,11 @@ def _trace_inputs(trace):
 
 
 def run_cbmc(gb, unwind=None, unwindset=None, flags=(), timeout=300, trace=False,
-             props=None, checks="default", malloc_may_fail=False):
+             props=None, checks="default", malloc_may_fail=False, unwinding_assertions=True):
     cmd = ["cbmc", gb] + BASE_FLAGS
+    if not unwinding_assertions:
+        # bug-hunting pass only (a failure found is a real path of the program; a pass proves nothing)
+        cmd = ["cbmc", gb, "--no-unwinding-assertions"] + [f for f in BASE_FLAGS if f != "--unwinding-assertions"]
     if not malloc_may_fail:
         cmd.append("--no-malloc-may-fail")
     if checks == "none":
